@@ -1,6 +1,6 @@
 (* C06 — Values and metadata read back exactly as written, wherever they are stored. *)
-From Verif Require Import Bytes Threshold.
-From Verif Require ThresholdProofs.
+From Verif Require Import Bytes Codec LogRecord Threshold VlogWrite.
+From Verif Require ThresholdProofs VlogWriteProofs LogProofs.
 Open Scope Z_scope.
 
 (* inline-vs-value-log decision: every consultation of one entry (modify, sendToWriteCh,
@@ -12,3 +12,60 @@ Proof. exact ThresholdProofs.threshold_consistent. Qed.
 Print Assumptions C06_threshold_consistent.
 Example C06_threshold_consistent_ex : decisions 40 0 [32; 1024; 8] = [false; false; false].
 Proof. reflexivity. Qed.
+
+Open Scope N_scope.
+Section ValueLog.
+  (* the file's data key (AES-CTR keystream as an abstract involutive stream cipher), base IVs,
+     file headers, rotation limits: arbitrary *)
+  Variable encrypted : bool.
+  Variable xs : bytes -> bytes -> bytes.
+  Variable iv_of hdr_of : N -> bytes.
+  Variable file_size max_entries : N.
+  Hypothesis xs_len : forall iv d, length (xs iv d) = length d.
+  Hypothesis xs_invol : forall iv d, xs iv (xs iv d) = d.
+  Hypothesis xs_stream : forall iv a b, firstn (length a) (xs iv (a ++ b)) = xs iv a.
+  Hypothesis hdr_len : forall f, N.of_nat (length (hdr_of f)) = Consts.c_vlogHeaderSize.
+
+  (* For EVERY history of writer calls (valueLog.write on any batching of requests, any entries,
+     any inline/value-log decisions, any rotation limits) started in a well-formed value log:
+     in the final state, what Item.yieldItemValue reads through the value struct that writeToLSM
+     stored for an entry — inline, or through the value pointer into whichever file the record
+     went — is exactly the value of that entry.  `small` is the no-uint32-wrap guard that
+     validateWrites is there to establish. *)
+  Theorem C06_values_read_back : forall calls st st' psss,
+    VlogWriteProofs.vwf st ->
+    Forall (Forall VlogWriteProofs.wfes) calls ->
+    write_calls encrypted xs iv_of hdr_of file_size max_entries st calls = (st', psss) ->
+    VlogWriteProofs.small st' ->
+    Forall2 (Forall2 (Forall2 (VlogWriteProofs.reads_back encrypted xs iv_of st'))) calls psss.
+  Proof. exact (VlogWriteProofs.write_calls_read_back encrypted xs iv_of hdr_of file_size max_entries xs_len xs_invol xs_stream hdr_len). Qed.
+
+  (* later writes (appends, rotations) never disturb a value that could be read before *)
+  Theorem C06_later_writes_keep_values : forall calls st st' psss p v,
+    VlogWriteProofs.vwf st ->
+    Forall (Forall VlogWriteProofs.wfes) calls ->
+    write_calls encrypted xs iv_of hdr_of file_size max_entries st calls = (st', psss) ->
+    read_value encrypted xs iv_of st p = Some v -> read_value encrypted xs iv_of st' p = Some v.
+  Proof. exact (VlogWriteProofs.write_calls_stable encrypted xs iv_of hdr_of file_size max_entries xs_len xs_invol xs_stream hdr_len). Qed.
+
+  (* the freshly opened value log is well formed *)
+  Theorem C06_init_wf : VlogWriteProofs.vwf (vlog_init hdr_of).
+  Proof. exact (VlogWriteProofs.vlog_init_wf xs iv_of hdr_of file_size xs_len xs_invol xs_stream hdr_len). Qed.
+End ValueLog.
+Print Assumptions C06_values_read_back.
+Print Assumptions C06_later_writes_keep_values.
+Print Assumptions C06_init_wf.
+
+(* the hypotheses are satisfiable: the unencrypted instance, two requests in one writer call with
+   a rotation after the first (max_entries = 0), values on both sides of the threshold *)
+Example C06_values_read_back_ex :
+  let e1 := mkEntry [1; 0; 0; 0; 0; 0; 0; 0; 9] [7; 7; 7] 64 1 0 in
+  let e2 := mkEntry [2; 0; 0; 0; 0; 0; 0; 0; 9] [8] 0 0 0 in
+  let e3 := mkEntry [3; 0; 0; 0; 0; 0; 0; 0; 9] [5; 6] 4 2 77 in
+  let hdr := fun _ : N => repeat 0 20 in
+  let calls := [[[(e1, false); (e2, true)]; [(e3, false)]]] in
+  let '(st, psss) := write_calls false xs_id (fun _ => []) hdr 1048576 0 (vlog_init hdr) calls in
+  vl_max st = 3 /\ psss = [[[mkVptr 1 21 20; mkVptr 0 0 0]; [mkVptr 2 20 20]]] /\
+  item_value false xs_id (fun _ => []) st (lsm_value e1 false (mkVptr 1 21 20)) = Some [7; 7; 7] /\
+  item_value false xs_id (fun _ => []) st (lsm_value e3 false (mkVptr 2 20 20)) = Some [5; 6].
+Proof. vm_compute. repeat split; reflexivity. Qed.
